@@ -93,10 +93,20 @@ C01OK == /\ ~Obs.badHash
          /\ \A i \in DeliveredSet : cid[i] \in ToSet(Obs.store)
 JudgeSound == PrintT(ToJson([id |-> Case.id, c01 |-> C01OK]))
 
+\* ---------------------------------------------------------------- C06: pause and resume
+\* the paused run must give what the uninterrupted run of the same case gave (attached as `baseline`), and a paused
+\* response must not put block data on the wire
+Base == Cases[caseNo].baseline
+C06OK == /\ Obs.delivered = Base.delivered /\ ToSet(Obs.missing) = ToSet(Base.missing)
+         /\ (Obs.otherErrs = <<>>) = (Base.otherErrs = <<>>) /\ ToSet(Obs.store) = ToSet(Base.store)
+         /\ Obs.nodesOK = Base.nodesOK /\ Obs.hang = Base.hang
+         /\ Obs.blocksWhilePaused = 0
+JudgePause == PrintT(ToJson([id |-> Case.id, c06 |-> C06OK, took |-> Obs.pauseTook]))
+
 ImplMatches == /\ Obs.delivered = delivered
                /\ ToSet(Obs.missing) = errs
-               /\ (Obs.otherErrs = <<>>) = (fatal = "none")
+               /\ (Obs.otherErrs = <<>>) = (fatal \in {"none", "hang"})
                /\ ToSet(Obs.store) = store
-               /\ ~Obs.hang
+               /\ Obs.hang = (fatal = "hang")
 JudgeImpl == phase = "done" => PrintT(ToJson([id |-> Cases[caseNo].case.id, match |-> ImplMatches, dev |-> SetToSeqS(devUsed), fatal |-> fatal]))
 =============================================================================
